@@ -2,7 +2,7 @@ PLAN = {
     'property': 'C05',
     'units': [{'name': 'dc', 'tu': 'src/disassembler_c.cpp', 'roots': ['Teakra_Disasm_Do', 'Teakra_Disasm_NeedExpansion'],
                'must_fire': ['std::string -> verif_string (pointer + length)']}],
-    'harness_files': ['harness/c05.c'], 'contract_files': ['contracts/disasm_c.h'], 'spec_files': [],
+    'harness_files': ['harness/c05.c'], 'contract_files': ['contracts/disasm_c_contracts.h'], 'spec_files': [],
     'native': {'bridges': ['replay/bridge_disasm_c.cpp']},
     'obligations': [
         {'id': 'Teakra_Disasm_Do', 'entry': 'h_Disasm_Do', 'enforce': ['Teakra_Disasm_Do'], 'loop_contracts': True, 'timeout': 300,
